@@ -708,6 +708,87 @@ def run_ref_correspondence(ck, q):
     return mism
 
 
+def run_fields_correspondence(ck):
+    """tie H for Model/VarFields.lean: a real `BaseInputs` dataclass with a single, an optional and a variadic field,
+    every kind of object in every slot (Var, None, int, list / tuple / generator / iterator of Vars and non-Vars):
+    outcome class, `_flatten()`, `get_vars()`, and the same after the caller mutated the list it handed over."""
+    import numpy as np
+
+    from harness import lib_c10fun as F
+    from spox import Tensor, argument
+
+    rng = ck.rng
+    pool = [argument(Tensor(np.float32, (2,))) for _ in range(5)]
+    ids = {id(v): i for i, v in enumerate(pool)}
+
+    def item():
+        r = rng.random()
+        return {"var": rng.randrange(5)} if r < 0.8 else ("none" if r < 0.9 else "other")
+
+    def real_item(j):
+        return pool[j["var"]] if isinstance(j, dict) else None if j == "none" else 5
+
+    def given(kind):
+        r = rng.random()
+        if (kind == "variadic" and r < 0.85) or (kind != "variadic" and r < 0.1):
+            n = rng.choice([0, 1, 2, 2, 3, 4])
+            its = [item() if rng.random() < 0.12 else {"var": rng.randrange(5)} for _ in range(n)]
+            return {"t": "iter", "one_shot": rng.random() < 0.4, "items": its, "as": rng.choice(["list", "tuple"])}
+        if kind == "variadic":
+            return {"t": "obj", "item": item()}
+        r = rng.random()
+        return {"t": "obj", "item": {"var": rng.randrange(5)} if r < 0.75 else item()}
+
+    reqs, reals = [], []
+    for _ in range(ck.pick(400, 6000)):
+        fields = [{"name": n, "kind": k, "given": given(k)} for n, k in (("A", "single"), ("B", "optional"), ("C", "variadic"))]
+        reqs.append({"op": "varfields", "fields": fields})
+        reals.append(fields)
+    outs = ck.driver().ask_many("C10", reqs)
+    mism = 0
+    for fields, m in zip(reals, outs):
+        kw, lists = {}, []
+        for f in fields:
+            g = f["given"]
+            if g["t"] == "obj":
+                kw[f["name"]] = real_item(g["item"])
+            else:
+                src = [real_item(j) for j in g["items"]]
+                if g["one_shot"]:
+                    kw[f["name"]] = (x for x in src)
+                elif g["as"] == "list":
+                    kw[f["name"]] = src
+                    lists.append(src)
+                else:
+                    kw[f["name"]] = tuple(src)
+        try:
+            inst = F.In3(**kw)
+            err = None
+        except Exception as e:  # noqa: BLE001
+            err = type(e).__name__
+        ck.count(("fields", tuple((f["given"]["t"], f["given"].get("one_shot")) for f in fields), err))
+        bad = None
+        if err is not None:
+            if m.get("err") != err:
+                bad = f"real raises {err}, model {str(m)[:80]}"
+        elif "err" in m:
+            bad = f"real accepts, model raises {m['err']}"
+        else:
+            for l in lists:  # the caller mutates every list it handed over
+                l.append(pool[0])
+                l.reverse()
+            flat = [[k, ids.get(id(v))] for k, v in inst._flatten()]
+            gv = [[k, ids[id(v)]] for k, v in inst.get_vars().items()]
+            if flat != m["flat"] or gv != m["vars"]:
+                bad = f"_flatten/get_vars after the caller's mutations: real {flat} {gv}, model {m['flat']} {m['vars']}"
+        if bad:
+            mism += 1
+            if mism <= 3:
+                ck.broken("correspondence", "C10 BaseVars model vs real Inputs dataclass", f"{[f['given'] for f in fields]}: {bad}"[:400])
+    ck.cov["fields_correspondence"] = {"cases": len(reqs), "mismatches": mism}
+    return mism
+
+
 # ------------------------------------------------------- tie H (2b): float rounding on the attribute path
 def boundary_doubles(rng, n_random):
     """binary64 patterns around everything that matters for (float)double."""
@@ -2272,6 +2353,8 @@ def run_site_case(synth, by, case):
         if case["cls"] == "AttrTensors":
             return S.run_tensors_case(A, case["form"], case["way"])
         return S.run_class_case(A, case["cls"], case["form"], case["way"], case["items"])
+    if case["level"] == "variadic":
+        return S.run_variadic_case(synth, case, case["way"])
     rows = by.get((case["mod"], case["ctor"]), [])
     row = next((r for r in rows if r["param"] == case["param"]), None)
     if row is None:
@@ -2331,6 +2414,11 @@ def run_site_oracle(ck, sinfo):
                     continue
                 cases.append({"kind": "attr_site", "level": "op", "mod": r["mod"], "ctor": r["ctor"], "param": r["param"],
                               "cls": r["cls"], "form": r["form"], "way": "mixed:" + which})
+    # (d) every constructor parameter typed Sequence[Var]: the caller's list of Vars mutated between call and build
+    for v in sinfo.get("variadics", []):
+        for mut in S.VARIADIC_MUTS:
+            cases.append({"kind": "attr_site", "level": "variadic", "mod": v["mod"], "ctor": v["ctor"], "param": v["param"],
+                          "cls": "variadic", "form": "list", "way": mut})
     stats = {"cases": 0, "skipped_way": 0, "rows_reached": set(), "rows_unreached": {}}
     import warnings
 
@@ -2341,7 +2429,7 @@ def run_site_oracle(ck, sinfo):
         except Exception as e:  # noqa: BLE001  a harness problem is not a verdict
             UNOBSERVABLE.setdefault(f"attribute-site oracle ({case.get('ctor') or case.get('cls')})", f"{type(e).__name__}: {e}"[:200])
             continue
-        rowkey = (case.get("mod"), case.get("ctor"), case.get("param")) if case["level"] == "op" else (case["cls"], case["form"])
+        rowkey = (case.get("mod"), case.get("ctor"), case.get("param")) if case["level"] in ("op", "variadic") else (case["cls"], case["form"])
         if out is not None and out[0] == "skip":
             if out[1] == "way not applicable":
                 stats["skipped_way"] += 1
@@ -2356,7 +2444,9 @@ def run_site_oracle(ck, sinfo):
         if out is not None:
             part, what = out
             where = case["cls"] if case["level"] == "class" else f"{case['mod']}.{case['ctor']}.{case['param']}"
-            ck.failure(f"attr-site:{case['cls']}:{case['form']}:{case['way']}:{part}", f"{where}: {what}", case)
+            key = f"capture:variadic:{case['ctor']}:{case['way']}:{part}" if case["level"] == "variadic" else \
+                f"attr-site:{case['cls']}:{case['form']}:{case['way']}:{part}"
+            ck.failure(key, f"{where}: {what}", case)
     stats["rows_reached"] = len(stats["rows_reached"])
     stats["rows_unreached_n"] = len(stats["rows_unreached"])
     stats["rows_unreached"] = dict(list(stats["rows_unreached"].items())[:12])
@@ -2405,6 +2495,7 @@ def run(ck: core.Check):
         ck.broken("translator", "C10 attribute sites not extractable", f"{type(e).__name__}: {e}"[:300])
     ck.cov["attr_sites"] = {"rows": len(sinfo["rows"]), "per_module": sinfo["per_mod"], "irregular": sinfo["irregular"][:10],
                             "multi_use": sinfo["multi"][:10], "live_mismatches": sinfo["live_mismatches"][:10],
+                            "variadic_parameters": [f"{v['mod']}.{v['ctor']}.{v['param']}" for v in sinfo.get("variadics", [])],
                             "shapes": [f"{x['cls']}/{x['form']}/{'required' if x['required'] else 'optional'}: {x['count']}" for x in sinfo["shapes"]],
                             "required_list_attributes": [f"{r['mod']}.{r['ctor']}.{r['param']}:{r['cls']}" for r in sinfo["rows"]
                                                          if r["form"] == "direct" and r["cls"] in ("AttrInt64s", "AttrFloat32s", "AttrStrings", "AttrTensors")]}
@@ -2415,6 +2506,7 @@ def run(ck: core.Check):
     for facet, fn in (("fromArray/toArray", lambda: run_enc_correspondence(ck, q)),
                       ("Attr constructors", lambda: run_attr_correspondence(ck, q)),
                       ("attribute references", lambda: run_ref_correspondence(ck, q)),
+                      ("input fields", lambda: run_fields_correspondence(ck)),
                       ("float rounding", lambda: run_float_correspondence(ck)),
                       ("const/initializer/constant", lambda: run_embed_correspondence(ck, q)),
                       ("capture", lambda: run_capture_correspondence(ck, info) if info else None)):
